@@ -14,6 +14,15 @@ LEDGER_NOTE = ("Trusted: TLC, JSON bridge, the harness's read-only projection th
                "methods are not generated yet.")
 
 CHECKS = {
+    "C14": (
+        "Election.tla (transcribed validator election) checked by TLC against the declarative rule for all small registries and "
+        "tie-breaks; real elections recorded by probe applications placed around the scheduler and validated by TLC "
+        "(TraceElection.tla)",
+        "TLC recomputes eligibility from the raw registry/staking records the election read (roles, expiration, freeze status, "
+        "escrow vs. the thresholds of all stake claims) and checks membership, limits, stake order, power monotonicity and that the "
+        "validator updates turn the previous set into the elected one, for every election of seeded runs on real multiplexers "
+        "(epoch changes and post-slashing re-elections, binding validator-count and per-entity limits).",
+        LEDGER_NOTE + " Validator elections only (no runtime committees in the scenarios).", "DESIGN.md 4 C14"),
     "C01": (
         "Replica.tla (proposal cache of the ABCI multiplexer) checked by TLC; TLC-emitted path-assignment rows drive seeded block "
         "histories on 4 real multiplexers (both backends, restarts from disk); recorded per-height results validated by TLC "
